@@ -44,6 +44,14 @@ class Contract:
         self.provider = kw.pop("provider", None)
         self.notes = kw.pop("notes", "")
         self.kwonly = kw.pop("kwonly", {})
+        self.provider_requires = dict(kw.pop("provider_requires", {}))  # provider name -> [exprs over idx, args, locals]
+        self.provider_hints = dict(kw.pop("provider_hints", {}))        # provider name -> [ghost statements]
+        self.pure_calls = list(kw.pop("pure_calls", []))   # method names assumed pure & provider-free (lenient only)
+        self.source = kw.pop("source", qual)              # qualified name of the def in `file` (inherited methods)
+        self.lenient = kw.pop("lenient", False)           # untracked values become havocs (Unknown) instead of errors
+        self.asserts = kw.pop("asserts", "prove")         # 'prove': code asserts are obligations; 'raise': run-time checks
+        self.isinstance_map = kw.pop("isinstance_map", {})
+        self.aliases = kw.pop("aliases", {})
         self.self_invariant = kw.pop("self_invariant", True)  # include class invariant of self in requires/ensures
         if kw:
             raise TypeError(f"unknown contract keys {list(kw)} for {qual}")
@@ -57,6 +65,8 @@ class Registry:
         self.lemmas = {}
         self.providers = {}
         self.axioms = []
+        self.opaque_methods = {}
+        self.opaque_attrs = {}
 
     def klass(self, file, name, fields=None, bases=(), invariant=(), properties=(), ghost_fields=None):
         self.classes[name] = ClassSpec(file, name, dict(fields or {}), list(bases), list(invariant), list(properties),
@@ -70,6 +80,13 @@ class Registry:
     def spec_fn(self, name, fn):
         """fn(ex, st, *vals) -> Val : a specification-only function usable in contract expressions."""
         self.spec_fns[name] = fn
+
+    def opaque_method(self, tname, method, returns, args=()):
+        """A pure, deterministic method of an opaque (user) type: an uninterpreted function of receiver and args (A2)."""
+        self.opaque_methods[(tname, method)] = (list(args), returns)
+
+    def opaque_attr(self, tname, attr, t):
+        self.opaque_attrs[(tname, attr)] = t
 
     def provider(self, name, **kw):
         self.providers[name] = kw
@@ -127,3 +144,5 @@ klass = REG.klass
 contract = REG.contract
 spec_fn = REG.spec_fn
 provider = REG.provider
+opaque_method = REG.opaque_method
+opaque_attr = REG.opaque_attr
